@@ -97,6 +97,11 @@ def pair_walk(cin, cout, pairs, problems, depth=0):
         continue
       pair_walk(child, got, pairs, problems, depth + 1)
   elif isinstance(cin, config_lib.Buildable):
+    # a Partial / ArgFactory: its built value must be a new object, never the configured callable itself
+    # (two distinct instances, or two builds, would then share one "built" object)
+    if isinstance(cin, (fdl.Partial, fdl.ArgFactory)) and cout is cin.__fn_or_cls__:
+      problems.append("a Partial was built to the configured callable itself (distinct instances and separate "
+                      "builds then share it)")
     return
   elif isinstance(cin, dict):
     if type(cout) is not type(cin) or list(cout.keys()) != list(cin.keys()):
